@@ -154,3 +154,9 @@ L('dform_uncharged', {'s': 'str', 'N': 'int', 'b': 'int', 'k': 'int'}, 'dform_up
         'cnt_nonneg(%s, k - 1 + b, N)' % _NB])
 T('delta_uncharged', {'s': 'str', 'N': 'int'}, 'delta_spec(s, N) == 0', requires=['N >= 1', 'npos(s, 0, N) == 0', 'nneg(s, 0, N) == 0'],
   uses=['dform_uncharged(s, N, 5, N - 5 + 1)', 'dform_uncharged(s, N, 6, N - 6 + 1)'])
+
+# every position of the filtered word is the rank of some kept character of the source (the filter is onto)
+L('n_keep_onto', {'u': 'str', 'k': 'int'},
+  'forall(lambda x: exists(lambda j: And(keep_file(u[j]), n_keep(u, 0, j) == x), 0, k), 0, n_keep(u, 0, k))', ind='k', base='0',
+  uses=['n_keep_nonneg(u, 0, k - 1)'])
+L('n_keep_nonneg_all', {'u': 'str', 'n': 'int'}, 'forall(lambda i: n_keep(u, 0, i) >= 0, 0, n + 1)', ind='n', base='0')
